@@ -438,7 +438,7 @@ def gen_boundary(rng, stats, i, quick, nblocks=1, force_r=None, force_probe=None
     cuts = sorted(cuts)
     reads = [("", "-")] + [("", str(c)) for c in cuts]
     # the model gets the full read and a handful of cuts (a MiB-sized read costs ~0.4 s there)
-    nm = (7 if quick else 12) if nmodel is None else nmodel
+    nm = (6 if quick else 12) if nmodel is None else nmodel
     near = [k + 1 for k, c in enumerate(cuts) if any(abs(c - b) <= 24 for b in nbs)]
     pick = set([0])
     for _ in range(nm):
@@ -662,8 +662,8 @@ def small_entry_bytes(rng):
 
 def gen_cases(rng, quick, stats):
     cases = []
-    n_small = 150 if quick else 3000
-    n_bnd = 22 if quick else 400
+    n_small = 120 if quick else 3000
+    n_bnd = 16 if quick else 400
     n_bnd2 = 2 if quick else 40
     n_ro = 20 if quick else 300
     n_ro_big = 2 if quick else 20
